@@ -76,11 +76,15 @@ NonZeroModN(x) == LET r == Mod(x, N) IN IF IsZero(r) THEN One ELSE r
 SqKey(v, j) == IF v = 1 THEN FromNat(j + 1) ELSE IF j <= 8 THEN NonZeroModN(EdgeKeys[j]) ELSE NonZeroModN(FromBytesBE(Rnd32(200 + j)))
 SqNonce(v, j) == IF v = 1 THEN FromNat(2 * j + 1) ELSE NonZeroModN(FromBytesBE(Rnd32(300 + j)))
 SqMsg(v, j) == IF v = 2 /\ j <= 4 THEN EdgeMsgs[j] ELSE Rnd32(400 + j)
-SeqV(v, n) == [j \in 1..n |-> HaSign(SqKey(v, j), SqNonce(v, j), SqMsg(v, j))]
+\* variant 1 is a constant of the model (TLC evaluates it once per run): most cases share it
+SeqV1All == [j \in 1..(IF Thorough THEN 64 ELSE 8) |-> HaSign(SqKey(1, j), SqNonce(1, j), SqMsg(1, j))]
+SeqV(v, n) == IF v = 1 THEN SubSeq(SeqV1All, 1, n) ELSE [j \in 1..n |-> HaSign(SqKey(v, j), SqNonce(v, j), SqMsg(v, j))]
 
 \* small groups: a sequence is a tuple of <<d, k, m>> with d, k in 1..N-1 and m an index into TinyMsgs
 TinyMsgs == << Zeros(32), [j \in 1..32 |-> (7 * j) % 256] >>
-SeqT(t) == [j \in 1..Len(t) |-> HaSign(FromNat(t[j][1]), FromNat(t[j][2]), TinyMsgs[t[j][3]])]
+TinyDK == (IF NN <= 13 THEN 1..(NN \div 2) ELSE { 1, 2, NN \div 4, NN \div 2 }) \cup { 1, 2, NN \div 2, (NN \div 2) - 1, 3, 4 }
+TinySigTab == [t \in TinyDK \X TinyDK \X (1..2) |-> HaSign(FromNat(t[1]), FromNat(t[2]), TinyMsgs[t[3]])]    \* constant: evaluated once
+SeqT(t) == [j \in 1..Len(t) |-> TinySigTab[t[j]]]
 
 \* sequence descriptors: <<"sq", n, v>> or <<"tsq", t>>
 SeqOf(c) == IF c[1] = "sq" THEN SeqV(c[3], c[2]) ELSE SeqT(c[2])
@@ -199,10 +203,12 @@ TinyTripB == { << d, k, 2 >> : d \in { 1, NN \div 2 }, k \in (IF Thorough THEN {
 TinySeqs == { << >> } \cup { << a >> : a \in (IF Thorough THEN TinyTrip ELSE TinyTripA) }
             \cup { << a, b >> : a \in TinyTripA, b \in TinyTripB }
             \cup { << a, b, c >> : a \in TinyTripB, b \in TinyTripB, c \in { << 3, 4, 1 >> } }
-\* encodings of the aggregate scalar: j < 1000 is the literal value j; 1000 + i are re-encodings s + K_i * n of the true s
-SEncs == 0..((IF Thorough THEN 5 ELSE 2) * NN + 1) \cup 1000..1005
+\* encodings of the aggregate scalar: j < 1000 is the literal value j (every residue and the first overflow values);
+\* 1100 + k (k = 1..9) is the re-encoding s + k*n of the true s; 1000 + i are re-encodings s + K_i * n with huge K_i
+SEncs == 0..(IF NN <= 13 THEN NN + 2 ELSE 14) \cup 1000..1005 \cup 1101..1109
 SEnc(j, s) ==
   IF j < 1000 THEN FromNat(j)
+  ELSE IF j > 1100 THEN Add(s, Mul(FromNat(j - 1100), N))
   ELSE LET room == Div(Sub(Max256, s), N)                       \* the largest K with s + K*n < 2^256
            K == CASE j = 1000 -> room
                   [] j = 1001 -> Sub(room, One)
@@ -219,7 +225,7 @@ TinySPool == IF NN <= 13 THEN 0..(NN + 2) ELSE { 0, 1, 2, NN \div 2, NN - 1, NN,
 TinyCasesAt(ph) ==
        { << "tvs", t, j >> : t \in TinySeqs, j \in SEncs }
   \cup { << "tv1", rx, s, px, m >> : rx \in TinyXPool \cup TinyBadR, s \in TinySPool, px \in TinyXPool, m \in (IF Thorough THEN 1..2 ELSE { 2 }) }
-  \cup { << "tv2", r1, r2, s, p1, p2 >> : r1 \in TinyXPool, r2 \in TinyXPool2 \cup { NBytes(SmallNoLiftX) }, s \in 0..NN, p1 \in TinyXPool2, p2 \in TinyXPool2 }
+  \cup { << "tv2", r1, r2, s, p1, p2 >> : r1 \in TinyXPool, r2 \in TinyXPool2 \cup { NBytes(SmallNoLiftX) }, s \in (IF NN <= 13 THEN 0..NN ELSE TinySPool), p1 \in TinyXPool2, p2 \in TinyXPool2 }
 TinyCases == TinyCasesAt(phase)
 ExpandTiny(c) ==
   CASE c[1] = "tvs" -> LET sq == SeqT(c[2])  n == Len(sq)  agg == AggOf(sq)  s == HaAggS(agg, n)  enc == SEnc(c[3], s)
@@ -322,6 +328,11 @@ HInvSame == phase \in { "run", "fin" } =>
 \* ... and the complete aggregate verifies for the same (key, message) sequence
 HInvVerify == phase = "fin" => (rec.out.agg = cur.agg /\ rec.out.vret = 1 /\ Len(cur.agg) = 32 * (Len(cur.pks) + 1))
 HEmit == phase \in { "run", "fin" } => EmitRecord(rec)
+
+\* both machines in one TLC run (two initial states; the phases are disjoint)
+AInit == Init \/ HInit
+ANext == Next \/ HNext
+AEmit == Emit /\ HEmit
 
 -----------------------------------------------------------------------------
 TraceEvents == LoadTrace
